@@ -91,6 +91,21 @@ static void run_case(Case &c)
     Rng &r = c.rng;
     SongOpts so; so.max_tracks = 5; so.max_events = 40; so.tempo_changes = true; so.lone_eot = true;
     Song song = gen_song(r, so);
+    const bool long_song = r.chance(0.03);
+    if(long_song)
+    {   // more event rows in front of the target than any per-call iteration bound of the sequencer (10000)
+        song = Song(); song.format = 0; song.division = 960; song.running_status = r.chance(0.5); song.tracks.resize(1);
+        STrack &tr = song.tracks[0];
+        int rows = r.range(10500, 13000); uint64_t tick = 0; int serial = 0;
+        for(int i = 0; i < rows; i++)
+        {
+            tick += (uint64_t)r.range(8, 14);
+            SEv e = (i % 3 == 0) ? mk_chan(tick, 0xB0, r.chance(0.5) ? 7 : 11, (i * 7) & 127) : (i % 3 == 1) ? mk_chan(tick, 0x90, 60 + (i % 12), 100) : mk_chan(tick, 0x80, 60 + ((i - 1) % 12), 0);
+            if(i % 97 == 0) e = mk_chan(tick, 0xE0, i & 127, (i / 128) & 127);
+            e.serial = serial++; tr.ev.push_back(e);
+        }
+        SEv eot = mk_meta(tick, 0x2F, std::vector<uint8_t>()); eot.serial = serial++; tr.ev.push_back(eot);
+    }
     std::vector<uint8_t> file = serialize_song(song);
     TempoMap tm; tm.build(song);
     long rate = r.pick((const long[]){8000, 22050, 44100});
@@ -107,6 +122,7 @@ static void run_case(Case &c)
     if(gaps.empty() || ref_len > 600) { c.inconclusive = true; count("inconclusive_no_gap_between_events"); return; }
     auto pick_target = [&]() { const std::pair<double, double> &gp = gaps[r.below((uint32_t)gaps.size())]; return gp.first + r.unit() * (gp.second - gp.first); };
     double t = pick_target();
+    if(long_song) { const std::pair<double, double> &gp = gaps[gaps.size() - 1 - r.below((uint32_t)std::min<size_t>(gaps.size(), 1200))]; t = gp.first + r.unit() * (gp.second - gp.first); count("long_song_cases"); }
     bool loop_on = r.chance(0.2);
     int variant = (int)r.below(100);    // <70: inside target; <80: beyond end; <90: negative; else: seek to 0-ish
     std::string ctx = vfmt("format %d, %zu tracks, division %d, rate %ld, loop %d", song.format, song.tracks.size(), song.division, rate, loop_on ? 1 : 0);
